@@ -120,7 +120,7 @@ func (f *fakeWeb) RoundTrip(r *http.Request) (*http.Response, error) {
 		Body: &gatedBody{g: g, data: data[a : b+1], ctx: r.Context()}, Request: r}, nil
 }
 
-var pickOps = []string{"have", "have", "haveall", "allowedfast", "unchoke", "unchoke", "choke", "snub", "pick", "pick", "pickall", "blocksdone", "blocksdone", "writedone", "writedone", "writefail", "disconnect", "connect",
+var pickOps = []string{"have", "have", "haveall", "allowedfast", "unchoke", "unchoke", "choke", "snub", "pick", "pick", "pickall", "blocksdone", "blocksdone", "writedone", "writedone", "writefail", "lowest-hashfail", "disconnect", "connect",
 	"ws-pick", "ws-pick", "ws-progress", "ws-progress", "ws-progress", "ws-error"}
 
 func genPick(t *rapid.T) PickCase {
@@ -362,6 +362,40 @@ func runPick(c PickCase) core.Result {
 		}
 		pickAll()
 	}
+	// doBlocksDone: the peer delivered every block of its piece: the piece goes to the writer (one write at a time)
+	doBlocksDone := func(p int) {
+		d, ok := downloads[p]
+		if !ok || writing != -1 || pieces[d.piece].Writing {
+			return
+		}
+		x := d.piece
+		closeDownload(p)
+		pieces[x].Writing = true
+		writing, writingSrc = x, p
+		pick(p)
+	}
+	doWriteEnd := func(failed bool) {
+		if writing == -1 {
+			return
+		}
+		x := writing
+		pieces[x].Writing = false
+		writing = -1
+		if failed {
+			lab["hash-fail"] = true
+			if writingSrc >= 0 {
+				disconnect(writingSrc) // the source is closed and banned
+			}
+			pickAll()
+			return
+		}
+		pieces[x].Done = true
+		_, list := requesters(x)
+		for _, q := range list {
+			closeDownload(q)
+			pick(q)
+		}
+	}
 	multifile := len(info.Files) > 1
 	var wsPickSrc func(src *webseedsource.WebseedSource)
 	wsPickSrc = func(src *webseedsource.WebseedSource) {
@@ -447,36 +481,31 @@ func runPick(c PickCase) core.Result {
 		case "pickall":
 			pickAll()
 		case "blocksdone":
-			// the peer delivered every block of its piece: the piece goes to the writer (one write at a time)
-			d, ok := downloads[p]
-			if !ok || writing != -1 || pieces[d.piece].Writing {
-				continue
-			}
-			x := d.piece
-			closeDownload(p)
-			pieces[x].Writing = true
-			writing, writingSrc = x, p
-			pick(p)
+			doBlocksDone(p)
 		case "writedone", "writefail":
-			if writing == -1 {
-				continue
-			}
-			x := writing
-			pieces[x].Writing = false
-			writing = -1
-			if op.Op == "writefail" {
-				lab["hash-fail"] = true
-				if writingSrc >= 0 {
-					disconnect(writingSrc) // the source is closed and banned
+			doWriteEnd(op.Op == "writefail")
+		case "lowest-hashfail":
+			// the lowest-indexed piece in progress goes to the writer, the other peers pick while it is being written,
+			// then it fails its hash check and everybody picks again
+			low, lp := -1, -1
+			for q, d := range downloads {
+				if low == -1 || d.piece < low {
+					low, lp = d.piece, q
 				}
-				pickAll()
-				break
 			}
-			pieces[x].Done = true
-			_, list := requesters(x)
-			for _, q := range list {
-				closeDownload(q)
-				pick(q)
+			if lp >= 0 && writing == -1 && !pieces[low].Writing {
+				doBlocksDone(lp)
+				pickAll()
+				doWriteEnd(true)
+				lab["lowest-hashfail"] = true
+				// one of the other peers completes its piece and picks again: the failed piece is eligible once more
+				for q := range peers {
+					if _, busy := downloads[q]; busy && fail == "" {
+						doBlocksDone(q)
+						doWriteEnd(false)
+						break
+					}
+				}
 			}
 		case "disconnect":
 			if connected[p] {
